@@ -95,15 +95,17 @@ class AFS:
     def add(self, path, fid, size):
         path = posixpath.normpath(posixpath.join(self.cwd, path))
         self.mkdirs(posixpath.dirname(path))
+        existed = path in self.files
         self.files[path] = Node(ABuf.file(fid, size))
-        self.touch(path)
+        self.touch(path, entry=not existed)
         return path
 
     def add_content(self, path, content):
         path = posixpath.normpath(posixpath.join(self.cwd, path))
         self.mkdirs(posixpath.dirname(path))
+        existed = path in self.files
         self.files[path] = Node(content)
-        self.touch(path)
+        self.touch(path, entry=not existed)
         return path
 
     def add_token(self, path, tok, size=None):
@@ -185,30 +187,49 @@ class AFS:
         return [names[i] for i in self._perm[key]]
 
     # ---- mutation ----------------------------------------------------------
-    def touch(self, *paths):
-        """Bump modification times (path and its parent directory)."""
+    def touch(self, *paths, entry=True):
+        """Bump modification times: of the path itself, and of its parent
+        directory only when a directory entry appears or disappears."""
         self.clock += 1
         for p in paths:
             self.mtime[p] = self.clock
-            self.mtime[posixpath.dirname(p)] = self.clock
+            if entry:
+                self.mtime[posixpath.dirname(p)] = self.clock
             self.ino.setdefault(p, len(self.ino) + 100)
+
+    def link(self, src, dst):
+        """Hard link: two names for one file (harness side and os.link)."""
+        s, d = self.resolve(src), self.resolve(dst)
+        self._parent_ok(d, dst)
+        if d in self.files or d in self.dirs:
+            raise FileExistsError(errno.EEXIST, "File exists", _s(dst))
+        self._op("link", s, d)
+        self.files[d] = self.files[s]
 
     def stat(self, p):
         r = self.resolve(p)
         if r is None or (r not in self.files and r not in self.dirs):
             raise FileNotFoundError(errno.ENOENT, "No such file or directory", _s(p))
         isdir = r in self.dirs
-        size = 4096 if isdir else self.files[r].content.size()
+        if isdir:
+            size = 4096
+        else:
+            try:
+                size = self.files[r].content.size()
+            except Unsupported:
+                size = eng().int("st_size:%s" % r, 2, None)
         m = self.mtime.get(r, 1)
+        nlink = 1 if isdir else sum(1 for n in self.files.values() if n is self.files[r])
         return types.SimpleNamespace(st_size=size, st_mode=(0o040755 if isdir else 0o100644), st_ino=self.ino.setdefault(r, len(self.ino) + 100),
                                      st_mtime_ns=m * 1000000000, st_mtime=float(m), st_ctime_ns=m * 1000000000, st_ctime=float(m),
-                                     st_dev=1, st_nlink=1, st_uid=0, st_gid=0, st_atime=float(m), st_atime_ns=m * 1000000000)
+                                     st_dev=1, st_nlink=nlink, st_uid=0, st_gid=0, st_atime=float(m), st_atime_ns=m * 1000000000)
 
     def _op(self, *entry):
         """Record a mutating operation; fault point."""
         for a in entry[1:]:
             if isinstance(a, str) and a.startswith("/"):
-                self.touch(a)
+                exists = a in self.files or a in self.dirs
+                self.touch(a, entry=(entry[0] in ("remove", "rmdir", "mkdir", "rename") or not exists))
         k = self.nops
         self.nops += 1
         f = self.fault
@@ -224,7 +245,7 @@ class AFS:
                 self.log.append(entry)
                 return "shortret" if entry[0] == "write" else None
             if f.kind in ("enospc", "short"):
-                if entry[0] == "write":
+                if entry[0] in ("write", "copy-write"):
                     return f.kind
                 if f.kind == "enospc":
                     self.log.append(("ENOSPC",) + entry)
@@ -261,8 +282,10 @@ class AFS:
             if m == "r+" and r not in self.files:
                 raise FileNotFoundError(errno.ENOENT, "No such file or directory", _s(p))
             self._op("open-" + m, r)
-            if r not in self.files or m in ("w", "w+"):
+            if r not in self.files:
                 self.files[r] = Node(ABuf.of([]))
+            elif m in ("w", "w+"):
+                self.files[r].content = ABuf.of([])      # truncate in place (other hard links see it too)
             buffering = kw.get("buffering", a[0] if a else -1)
             return AWFile(self, r, m, unbuffered=(buffering == 0))
         raise Unsupported("open mode %r" % mode)
@@ -343,8 +366,21 @@ class AFS:
         self._parent_ok(d, dst)
         if d == s:
             raise Unsupported("shutil.SameFileError")
-        self._op("copy", s, d)
-        self.files[d] = Node(ABuf(self.files[s].content))
+        data = ABuf(self.files[s].content)
+        self._op("copy", s, d)                  # the destination is opened (created / truncated) ...
+        if d in self.files:
+            self.files[d].content = ABuf.of([])
+        else:
+            self.files[d] = Node(ABuf.of([]))
+        fault = self._op("copy-write", d)       # ... and then filled
+        if fault in ("enospc", "short"):
+            self.files[d].content = _strict_prefix(data)
+            if fault == "enospc":
+                self.log.append(("ENOSPC-partial", d))
+                raise OSError(errno.ENOSPC, "No space left on device", d)
+            self.log.append(("CRASH-partial", d))
+            raise Crash("crash during copy to %s" % d)
+        self.files[d].content = data
         return d
 
     def copyfile(self, src, dst, **kw):
@@ -363,7 +399,12 @@ class AFS:
     def clone(self, tag=None):
         c = AFS.__new__(AFS)
         c.__dict__.update(self.__dict__)
-        c.files = {p: Node(ABuf(n.content)) for p, n in self.files.items()}
+        seen = {}
+        c.files = {}
+        for p, n in self.files.items():
+            if id(n) not in seen:
+                seen[id(n)] = Node(ABuf(n.content))
+            c.files[p] = seen[id(n)]
         c.dirs = set(self.dirs)
         c.log = []
         c.reads = []
@@ -771,6 +812,7 @@ class OsModel:
         self.rmdir = fs.rmdir
         self.rename = fs.rename
         self.replace = fs.rename
+        self.link = fs.link
 
     def getcwd(self):
         return self._fs.cwd
